@@ -180,7 +180,7 @@ def body_line(mm, cid, style):
 
 
 def describe_pass(ctx):
-    n = 250 if ctx.quick() else 3000
+    n = 250 if ctx.quick() else 1200
     lines, reals = [], []
     for h in range(n):
         rng = common.sub_rng(ctx.seed, 'C13', 'descr', h)
@@ -415,7 +415,7 @@ def history_case(ctx, h, nops, tmp, model_in, expect):
 
 
 def history_pass(ctx):
-    n = 250 if ctx.quick() else 2000
+    n = 250 if ctx.quick() else 800
     nops = 25 if ctx.quick() else 40
     tmp = tempfile.mkdtemp(prefix='verif_c13_')
     model_in, expect = [], []
